@@ -697,9 +697,127 @@ fn c18_round(r: &mut Rng, rep: &mut Report, big: bool) {
     rep.sample(2, || json!({"predicate": p, "mutations": ms, "words": ws, "note": "plus byte arrays, Signature, Program, Contract, SignedContract, Solution, SolutionSet per round"}));
 }
 
+/// Exhaustive small sub-spaces (sharded): every list of <= 3 mutations with key / value lengths 0..=2, and every
+/// predicate of <= 3 nodes whose `edge_start` ranges over {0..=edges.len()+1, MAX-1, MAX} with 0..=3 edges.
+fn c18_exhaustive(args: &Args, rep: &mut Report) {
+    let case = |what: &str, v: serde_json::Value| json!({"engine": "formats", "what": what, "value": v});
+    let shapes: Vec<(usize, usize)> = (0..3).flat_map(|k| (0..3).map(move |v| (k, v))).collect();
+    let mut n = 0u64;
+    let mut lists: Vec<Vec<(usize, usize)>> = vec![vec![]];
+    for len in 1..=3usize {
+        let mut idx = vec![0usize; len];
+        loop {
+            lists.push(idx.iter().map(|i| shapes[*i]).collect());
+            let mut k = 0;
+            while k < len {
+                idx[k] += 1;
+                if idx[k] < shapes.len() {
+                    break;
+                }
+                idx[k] = 0;
+                k += 1;
+            }
+            if k == len {
+                break;
+            }
+        }
+    }
+    for l in &lists {
+        n += 1;
+        if n % args.nshards as u64 != args.shard as u64 {
+            continue;
+        }
+        let mut w = 10;
+        let ms: Vec<Mutation> = l
+            .iter()
+            .map(|(k, v)| {
+                let key = (0..*k).map(|_| { w += 1; w }).collect();
+                let value = (0..*v).map(|_| { w += 1; w }).collect();
+                Mutation { key, value }
+            })
+            .collect();
+        rep.evaluations += 1;
+        rep.count("exhaustive.mutation_lists");
+        let enc: Vec<Word> = encode::encode_mutations(&ms).collect();
+        let own: Vec<Word> = [ms.len() as Word]
+            .into_iter()
+            .chain(ms.iter().flat_map(|m| [m.key.len() as Word].into_iter().chain(m.key.iter().copied()).chain([m.value.len() as Word]).chain(m.value.iter().copied())))
+            .collect();
+        let mv = || case("mutations", serde_json::to_value(&ms).unwrap());
+        if enc != own {
+            rep.violation("C18", "mutation-layout", "encoding of a list is not count, (key_len, key.., value_len, value..)*".into(), mv());
+        }
+        match catch(|| decode::decode_mutations(&enc)) {
+            Ok(Ok(back)) if back == ms => {}
+            other => rep.violation("C18", "mutations-roundtrip", format!("decode_mutations(encode_mutations(ms)) = {other:?}"), mv()),
+        }
+        if !ms.is_empty() {
+            rep.nontrivial(crate::rng::fnv_words(&enc));
+        }
+    }
+    // predicates
+    for nn in 0..=3usize {
+        for ne in 0..=3usize {
+            let starts: Vec<Edge> = (0..=ne as Edge + 1).chain([Edge::MAX - 1, Edge::MAX]).collect();
+            let total = starts.len().pow(nn as u32);
+            for ix in 0..total {
+                n += 1;
+                if n % args.nshards as u64 != args.shard as u64 {
+                    continue;
+                }
+                let mut k = ix;
+                let nodes: Vec<Node> = (0..nn)
+                    .map(|i| {
+                        let es = starts[k % starts.len()];
+                        k /= starts.len();
+                        Node { edge_start: es, program_address: ContentAddress([i as u8 + 1; 32]) }
+                    })
+                    .collect();
+                let p = Predicate { nodes, edges: (0..ne).map(|e| ((e + 1) % nn.max(1)) as Edge).collect() };
+                rep.evaluations += 1;
+                rep.count("exhaustive.predicates");
+                let pv = || case("predicate", serde_json::to_value(&p).unwrap());
+                let own = own_predicate_bytes(&p);
+                match catch(|| p.encode().map(|i| i.collect::<Vec<u8>>())) {
+                    Ok(Ok(enc)) => {
+                        if enc != own {
+                            rep.violation(if args.prop == "C17" { "C17" } else { "C18" }, "predicate-encoding", "encode() differs from the documented encoding".into(), pv());
+                        }
+                        if enc.len() != p.encoded_size() {
+                            rep.violation("C17", "encoded-size", format!("encoded_size() = {}, encode() yields {} bytes", p.encoded_size(), enc.len()), pv());
+                        }
+                        match catch(|| Predicate::decode(&enc)) {
+                            Ok(Ok(back)) if back == p => {}
+                            other => rep.violation("C18", "predicate-roundtrip", format!("decode(encode(p)) = {other:?}"), pv()),
+                        }
+                        if content_addr(&p).0 != sha(&own) {
+                            rep.violation("C17", "predicate-address", "content address is not SHA-256 of the documented encoding".into(), pv());
+                        }
+                    }
+                    other => rep.violation("C18", "predicate-roundtrip", format!("a predicate within limits failed to encode: {other:?}"), pv()),
+                }
+                for i in 0..nn + 2 {
+                    match catch(|| p.node_edges(i).map(|e| e.to_vec())) {
+                        Ok(real) if real == own_node_edges(&p, i) => {}
+                        other => rep.violation("C18", "node-edges", format!("node_edges({i}) = {other:?}, documented slice = {:?}", own_node_edges(&p, i)), pv()),
+                    }
+                    rep.count("node_edges_checked");
+                }
+                if nn >= 2 {
+                    rep.nontrivial(crate::rng::fnv(&own));
+                }
+            }
+        }
+    }
+    rep.set("exhaustive_subspaces", "all lists of <= 3 mutations with key/value lengths 0..=2; all predicates of <= 3 nodes x <= 3 edges with edge_start over {0..=edges+1, MAX-1, MAX}".to_string());
+}
+
 pub fn run(args: &Args, rep: &mut Report) {
     crate::vmcase::install_panic_hook();
     let thorough = args.tier == "thorough";
+    if args.prop == "C17" || args.prop == "C18" {
+        c18_exhaustive(args, rep);
+    }
     let mut r = Rng::new(crate::rng::mix(args.seed.wrapping_mul(1_000_003) + args.shard as u64, 0xf0a7));
     let rounds = ((if thorough { 8_000_000.0 } else { 300_000.0 }) * args.scale) as u64 / args.nshards as u64;
     let mut b = Buckets { seen: HashMap::new() };
